@@ -696,7 +696,7 @@ struct GenState {
     budget: u32,
     malformed: bool,
     /// directory index -> wd
-    dir_wd: [Option<i32>; 4],
+    dir_wd: [Option<i32>; 7],
     next_wd: i32,
     /// wds currently in the table (approximately), and those removed.
     known: Vec<i32>,
@@ -718,7 +718,11 @@ fn dir_path(rng: &mut Rng, idx: usize) -> Vec<u8> {
         0 => p.extend_from_slice(b"/w0"),
         1 => p.extend_from_slice(b"/w1"),
         2 => p.extend_from_slice(b"/sub/w2"),
-        _ => p.extend_from_slice(b"/w\xfe3"),
+        3 => p.extend_from_slice(b"/w\xfe3"),
+        // nested in / parent of / byte-prefix of another watched directory
+        4 => p.extend_from_slice(b"/w0/in"),
+        5 => p.extend_from_slice(b"/sub"),
+        _ => p.extend_from_slice(b"/w1x"),
     }
     match rng.below(6) {
         0 => p.push(b'/'),
@@ -1156,7 +1160,7 @@ impl InoCase {
             let p = format!("{BASE}/missing/m{}", rng.below(3));
             return format!("inotify watch 0 {} 0", hexs(p.as_bytes()));
         }
-        let idx = rng.below(4) as usize;
+        let idx = rng.below(7) as usize;
         let wd = match g.dir_wd[idx] {
             Some(wd) => {
                 feats.push("rewatch".into());
@@ -1186,7 +1190,7 @@ impl Comp for InotifyComp {
         "inotify"
     }
     fn rule(&self) -> String {
-        "each case = a real Watcher with 1-3 watched directories (trailing slashes, re-watches, a missing path) and 8-40 ops driving Events::poll_next against READ completions scripted in the simulated kernel: batches of 1-17 whole inotify records filling at most the 272-byte buffer (names of 0-255 bytes incl. boundary lengths and non-ASCII bytes, kernel padding or 0-15 NULs, single/combined/random mask bits, IN_IGNORED and IN_Q_OVERFLOW records, unknown/removed/extreme watch descriptors), empty reads, read errors (restarting EINTR/ECANCELED and fatal ones), dropping the iterator in every state, re-creating it, and `check` ops that re-read every &Event handed out so far; 1 case in 16 also feeds malformed streams (truncated headers/records, oversized length fields, NUL-only and NUL-containing names). A case is non-trivial if at least one event was yielded; distinct = distinct op scripts".into()
+        "each case = a real Watcher with 1-3 of 7 watched directories (some nested in or a byte-prefix of another; trailing slashes, re-watches, a missing path) and 8-40 ops driving Events::poll_next against READ completions scripted in the simulated kernel: batches of 1-17 whole inotify records filling at most the 272-byte buffer (names of 0-255 bytes incl. boundary lengths and non-ASCII bytes, kernel padding or 0-15 NULs, single/combined/random mask bits, IN_IGNORED and IN_Q_OVERFLOW records, unknown/removed/extreme watch descriptors), empty reads, read errors (restarting EINTR/ECANCELED and fatal ones), dropping the iterator in every state, re-creating it, and `check` ops that re-read every &Event handed out so far; 1 case in 16 also feeds malformed streams (truncated headers/records, oversized length fields, NUL-only and NUL-containing names). A case is non-trivial if at least one event was yielded; distinct = distinct op scripts".into()
     }
     fn gen_header(&mut self, _rng: &mut Rng, id: u64, _tier: &str) -> String {
         format!("inotify begin {id}")
